@@ -102,6 +102,8 @@ TABLE = {
         ("drop-copy-after-advanced-index-silent", DF, "            yield colname, column[indices].copy()", "            yield colname, column[indices]", S, None),
     ],
     "C04": [
+        ('groupby-names-sorted-set', 'dataiter/data_frame.py', '        self._group_colnames = tuple(colnames)', '        self._group_colnames = tuple(sorted(set(colnames)))', V, 'ARG-names'),
+        ('groupby-accepts-list-guarded', 'dataiter/data_frame.py', '        self._group_colnames = tuple(colnames)', '        if len(colnames) == 1 and not isinstance(colnames[0], str):\n            colnames = colnames[0]\n        self._group_colnames = tuple(colnames)', S, 'ARG-names'),
         ("aggregate-index-before-sort", DF, "        data = self.sort(**dict.fromkeys(group_colnames, 1))\n        data._index_ = np.arange(data.nrow)",
          "        data = self.copy()\n        data._index_ = np.arange(data.nrow)\n        data = data.sort(**dict.fromkeys(group_colnames, 1))", V, "IDX-3"),
         ("split-index-after-sort", DF, "        data._index_ = np.arange(data.nrow)\n        data = data.sort(**dict.fromkeys(by, 1))\n        data._sorted_index_ = np.arange(data.nrow)",
@@ -179,6 +181,8 @@ TABLE = {
         ("no-cache-flag", AG, "@njit(cache=dataiter.USE_NUMBA_CACHE)\ndef mode_apply_numba", "@njit(cache=True)\ndef mode_apply_numba", V, "SIB-8"),
     ],
     "C09": [
+        ('unselect-unwraps-single-name', 'dataiter/data_frame.py', '        for colname in self.colnames:\n            if colname not in colnames:', '        if len(colnames) == 1:\n            colnames = colnames[0]\n        for colname in self.colnames:\n            if colname not in colnames:', V, 'ARG-names'),
+        ('unselect-unwraps-guarded', 'dataiter/data_frame.py', '        for colname in self.colnames:\n            if colname not in colnames:', '        if len(colnames) == 1 and not isinstance(colnames[0], str):\n            colnames = tuple(colnames[0])\n        for colname in self.colnames:\n            if colname not in colnames:', S, 'ARG-names'),
         ("rbind-set-union", DF, "        colnames = util.unique_keys(itertools.chain(*data_frames))", "        colnames = list(set(itertools.chain(*data_frames)))", V, "ORD-2"),
         ("rbind-skip-empty", DF, "        data_frames = [self] + list(others)\n        colnames = util.unique_keys", "        data_frames = [x for x in [self] + list(others) if x.nrow > 0]\n        colnames = util.unique_keys", V, "ORD-2"),
         ("rename-by-target-name", DF, "            yield to, self[fm].copy()", "            yield to, self[to].copy() if to in self else self[fm].copy()", V, "NAME"),
@@ -226,6 +230,8 @@ TABLE = {
         ("records-skip-none", DF, "            for i, value in enumerate(self[colname].tolist()):\n                data[i][colname] = value", "            for i, value in enumerate(self[colname].tolist()):\n                if value is None: continue\n                data[i][colname] = value", V, "TNT-tolist"),
     ],
     "C14": [
+        ('from-arrow-dtypes-names-stripped', 'dataiter/data_frame.py', '        `dtypes` is an optional dict mapping column names to NumPy datatypes.\n        """\n        for name, column in zip(data.column_names, data.columns):', '        `dtypes` is an optional dict mapping column names to NumPy datatypes.\n        """\n        dtypes = {str(k).strip(): v for k, v in dict(dtypes).items()}\n        for name, column in zip(data.column_names, data.columns):', V, 'ARG-keys'),
+        ('from-arrow-dtypes-rebuilt-as-is', 'dataiter/data_frame.py', '        `dtypes` is an optional dict mapping column names to NumPy datatypes.\n        """\n        for name, column in zip(data.column_names, data.columns):', '        `dtypes` is an optional dict mapping column names to NumPy datatypes.\n        """\n        dtypes = {k: v for k, v in dict(dtypes).items()}\n        for name, column in zip(data.column_names, data.columns):', S, 'ARG-keys'),
         ("alias-drops-dtypes", IO, "                              columns=columns,\n                              dtypes=dtypes)", "                              columns=columns)", V, "FWD-alias"),
         ("alias-constant-encoding", IO, "    return ListOfDicts.read_json(path,\n                                 encoding=encoding,", "    return ListOfDicts.read_json(path,\n                                 encoding=\"utf-8\",", V, "FWD-alias"),
         ("read_csv-request-order-names", LO, "                colnames = [x for x in colnames if x in keys]", "                colnames = keys", V, "TNT-order"),
@@ -239,6 +245,7 @@ TABLE = {
         ("alias-other-target", IO, "    return DataFrame.read_npz(path, allow_pickle=allow_pickle)", "    return DataFrame.read_npz(path, allow_pickle=True)", V, "FWD-alias"),
     ],
     "C15": [
+        ('filter-wraps-item-value', 'dataiter/list_of_dicts.py', '                if extract(item) == values:', '                if tuple([extract(item)]) == values:', V, 'CMP-asis'),
         ("fill-shortcut-all-present-silent", LO, "        for item in self:\n            for key, value in key_value_pairs:\n                if key not in item:\n                    item[key] = value\n            yield item",
          "        for item in self:\n            if all(k in item for k, v in key_value_pairs):\n                yield item\n                continue\n            for key, value in key_value_pairs:\n                if key not in item:\n                    item[key] = value\n            yield item", S, None),
         ("fill-shortcut-by-length", LO, "        for item in self:\n            for key, value in key_value_pairs:\n                if key not in item:\n                    item[key] = value\n            yield item",
@@ -256,6 +263,8 @@ TABLE = {
         ("sort-none-first", LO, "                return ((item[key] is None, item[key]) if dir > 0 else\n                        (item[key] is not None, item[key]))", "                return ((item[key] is not None, item[key]) if dir > 0 else\n                        (item[key] is None, item[key]))", V, "ORD-sort"),
     ],
     "C16": [
+        ('lod-groupby-keys-sorted-set', 'dataiter/list_of_dicts.py', '        self._group_keys = tuple(keys)', '        self._group_keys = tuple(sorted(set(keys)))', V, 'ARG-names'),
+        ('lod-groupby-accepts-list-guarded', 'dataiter/list_of_dicts.py', '        self._group_keys = tuple(keys)', '        if len(keys) == 1 and isinstance(keys[0], (list, tuple)):\n            keys = keys[0]\n        self._group_keys = tuple(keys)', S, 'ARG-names'),
         ("lookup-not-reversed", LO, "        other_by_id = {extract2(x): x for x in reversed(other)}\n        for item in self:\n            id = extract1(item)", "        other_by_id = {extract2(x): x for x in other}\n        for item in self:\n            id = extract1(item)", V, "ORD-4"),
         ("left_join-pops-right-item", LO, "            new = other_by_id.get(extract1(item), {})\n            new = {k: v for k, v in new.items() if k not in by2}", "            new = other_by_id.get(extract1(item), {})\n            for k in by2: new.pop(k, None)", V, None),
         ("anti-in", LO, "            if extract1(item) not in other_ids:", "            if extract1(item) in other_ids:", V, "SIB-14"),
@@ -281,6 +290,8 @@ TABLE = {
         ("keys-from-first-feature", GE, "        for feature in raw.features:\n            for key in feature.properties:\n                data.setdefault(key, [])", "        for feature in raw.features[:1]:\n            for key in feature.properties:\n                data.setdefault(key, [])", V, "FILL"),
     ],
     "C19": [
+        ('sub-repl-stringified', 'dataiter/regex.py', '    if util.is_scalar(string):\n        return re.sub(pattern, repl, string, count=count, flags=flags)', '    repl = repl if isinstance(repl, (str, bytes)) else str(repl)\n    if util.is_scalar(string):\n        return re.sub(pattern, repl, string, count=count, flags=flags)', V, 'ARG-pass'),
+        ('sub-string-npstr-converted', 'dataiter/regex.py', '    if util.is_scalar(string):\n        return re.sub(pattern, repl, string, count=count, flags=flags)', '    if isinstance(string, np.str_):\n        string = str(string)\n    if util.is_scalar(string):\n        return re.sub(pattern, repl, string, count=count, flags=flags)', S, 'ARG-pass'),
         ("sub-vectorised-masked-silent", RE, "    out, na = _prep(string, dtypes.string, dtypes.string.na_object)\n    for i in np.flatnonzero(~na):\n        out[i] = re.sub(",
          "    out, na = _prep(string, dtypes.string, dtypes.string.na_object)\n    if isinstance(pattern, str) and pattern and re.escape(pattern) == pattern and isinstance(repl, str) and \"\\\\\" not in repl and flags == 0:\n        res = np.strings.replace(string, pattern, repl, count or -1)\n        res[na] = dtypes.string.na_object\n        return Vector.fast(res, str)\n    for i in np.flatnonzero(~na):\n        out[i] = re.sub(", S, None),
         ("proxy-other-function", VE, "        self.isoweekday = wrap(dt.isoweekday)", "        self.isoweekday = wrap(dt.weekday)", V, "FWD-registry"),
@@ -291,6 +302,8 @@ TABLE = {
         ("pull_str-raw-early-return", DT, "    if na.all(): return out.as_string()", "    if na.all(): return out", V, "MPT-5"),
     ],
     "C20": [
+        ('to-string-int-of-limit', 'dataiter/data_frame.py', '        max_rows = max_rows or dataiter.PRINT_MAX_ROWS', '        max_rows = int(max_rows or dataiter.PRINT_MAX_ROWS)', V, 'GRD-num'),
+        ('to-string-int-of-limit-guarded', 'dataiter/data_frame.py', '        max_rows = max_rows or dataiter.PRINT_MAX_ROWS', '        max_rows = max_rows or dataiter.PRINT_MAX_ROWS\n        if isinstance(max_rows, np.integer):\n            max_rows = int(max_rows)', S, 'GRD-num'),
         ("to_string-default-read-at-import", DF, "    def to_string(self, *, max_rows=None, max_width=None, truncate_width=None):", "    def to_string(self, *, max_rows=dataiter.PRINT_MAX_ROWS, max_width=None, truncate_width=None):", V, "TRAP-frozen"),
         ("cells-cut-by-line-count-only", VE, "                    (\"\".join(lines) != strings[i] and truncate_width < inf)):\n                    strings[i] = util.utruncate(lines[0], truncate_width-1) + \"…\"\n            return self.__class__.fast(pad(strings), str)\n        if self.is_string():",
          "                    (len(lines) > 1 and truncate_width < inf)):\n                    strings[i] = util.utruncate(lines[0], truncate_width-1) + \"…\"\n            return self.__class__.fast(pad(strings), str)\n        if self.is_string():", V, "SIB-pad"),
